@@ -8,7 +8,7 @@ every module (the names S makes visible inside it) inserted.
 Input (one token list per line):
   case <id> | module <k> | def <name> | prov <name> | cprov <name> | req <spec> | view <name>… | end
             | mac <name> | mprov <name> | fsprov <name>     (macros: define-syntax, provide, provide for-syntax)
-  request | req <spec> | def <name> | mode ok|syntax|freeid|runtime | obs <name>… | end | endcase
+  request | req <spec> | def <name> | use <name>… | mode ok|reader|macrodef|syntax|freeid|runtime|form:<kw> | obs <name>… | end | endcase
   <spec> ::= <k>[~<spelling>] | p:<prefix>:<spec> | o:<id>[=<to>],…:<spec>
   `dir <sub/dir>` (in a module) and `~<spelling>` only tell the harness where the file is put and how the
   path in the require form is written; a module is identified by its canonical path, i.e. by `k`.
@@ -40,6 +40,7 @@ structure Case where
   mods : List Module := []
   mmods : List MacMod := []     -- the macro part of every module (same index)
   reqs : List Request := []
+  kinds : List String := []     -- the `mode` word of every request (how a failing one fails)
   raw : List String := []       -- the input lines of the case, in order
 deriving Inhabited
 
@@ -53,6 +54,7 @@ structure PState where
   m : Module := ⟨[], [], [], []⟩
   mm : MacMod := {}
   r : Request := { specs := [] }
+  kind : String := "ok"
   done : List Case := []
   errors : List String := []
 
@@ -63,6 +65,9 @@ def toks (l : String) : List String := (l.trimAscii.toString.splitOn " ").filter
 def parseMode (s : String) : Mode :=
   if s.startsWith "form:" then .failCompile
   else match s with
+    -- every way of being rejected before anything of the program is evaluated has no effect: the reader rejects
+    -- the text; a macro definition of the program is malformed; a macro use does not match
+    | "reader" => .failCompile | "macrodef" => .failCompile
     | "syntax" => .failCompile | "freeid" => .failBuild | "runtime" => .failRuntime | _ => .ok
 
 /-- Convention of the generators: a name whose last component (after the last `.` or `-`) starts with `m` is a
@@ -79,7 +84,7 @@ def feed (p : PState) (l : String) : PState :=
   | ["mac", n], .inModule => { p with mm := { p.mm with macs := p.mm.macs ++ [n.toList] } }
   | ["mprov", n], .inModule => { p with mm := { p.mm with plainProv := p.mm.plainProv ++ [n.toList] } }
   | ["fsprov", n], .inModule => { p with mm := { p.mm with fsProv := p.mm.fsProv ++ [n.toList] } }
-  | ["request"], _ => { p with ctx := .inRequest, r := { specs := [] } }
+  | ["request"], _ => { p with ctx := .inRequest, r := { specs := [] }, kind := "ok" }
   | ["dir", _], .inModule => p     -- where the file lives: irrelevant to the module's identity
   | ["def", n], .inModule => { p with m := { p.m with defs := p.m.defs ++ [n.toList] } }
   | ["prov", n], .inModule => { p with m := { p.m with provs := p.m.provs ++ [⟨n.toList, false⟩] } }
@@ -99,9 +104,11 @@ def feed (p : PState) (l : String) : PState :=
       match parseSpec s with
       | some sp => { p with r := { p.r with specs := p.r.specs ++ [sp] } }
       | none => { p with errors := p.errors ++ [s!"bad spec {s}"] }
-  | ["mode", m], .inRequest => { p with r := { p.r with mode := parseMode m } }
+  | ["mode", m], .inRequest => { p with r := { p.r with mode := parseMode m }, kind := m }
   | "obs" :: ns, .inRequest => { p with r := { p.r with obs := p.r.obs ++ ns.map String.toList } }
-  | ["end"], .inRequest => { p with cur := { p.cur with reqs := p.cur.reqs ++ [p.r] }, ctx := .none }
+  | "use" :: ns, .inRequest => { p with r := { p.r with uses := p.r.uses ++ ns.map String.toList } }
+  | ["end"], .inRequest =>
+      { p with cur := { p.cur with reqs := p.cur.reqs ++ [p.r], kinds := p.cur.kinds ++ [p.kind] }, ctx := .none }
   | ["poke"], _ => p
   | ["endcase"], _ => { p with done := p.done ++ [p.cur], cur := {}, ctx := .none }
   | [], _ => p
@@ -145,6 +152,10 @@ def showOVal (useM : Bool) : Option Val → String
 def showStatus : Status → String
   | .ok => "ok" | .errSyntax => "err:syntax" | .errFreeId => "err:free-id"
   | .errRuntime => "err:runtime" | .errRequire => "err:require" | .undetermined => "undetermined"
+
+/-- The reader's errors have their own kind on the real engine. -/
+def showStatusK (kind : String) (s : Status) : String :=
+  if s = .errSyntax ∧ kind = "reader" then "err:read" else showStatus s
 
 def showBindings (useM : Bool) (l : List (Name × Option Val)) : String :=
   " ".intercalate (l.map fun (n, v) => s!"{showName n}={showOVal useM v}")
@@ -201,7 +212,7 @@ def runModel (fixed : Fix) (mfix : MacFix) (c : Case) : List String := Id.run do
     menv := macStep mfix c.mods mg menv r.specs status
     if status = .ok ∨ status = .errRuntime then
       mviews := (emitted.map fun k => (k, (mg.mod k).views.map fun n => (n, viewOf k n))) ++ mviews
-    out := out ++ [s!"req {i} {showStatus status}",
+    out := out ++ [s!"req {i} {showStatusK (c.kinds.getD i "ok") status}",
       lineOf true "obs" (r.obs.map fun n => (n, if isMacName n then menv.lookup n else st.tbl.lookup n))]
     for k in sortDedup (st.hashes.map (·.1)) do
       out := out ++ [lineOf true s!"view {k}" (mView st k ++ (mviews.lookup k).getD [])]
@@ -218,7 +229,7 @@ def runSpec (c : Case) : List String := Id.run do
   for r in c.reqs do
     let (st', status) := evalRequestS g ms st r
     st := st'
-    out := out ++ [s!"req {i} {showStatus status}",
+    out := out ++ [s!"req {i} {showStatusK (c.kinds.getD i "ok") status}",
       lineOf false "obs" (r.obs.map fun n => (n, st.top.lookup n))]
     for k in sortDedup st.inst do
       out := out ++ [lineOf false s!"view {k}" (sView g ms k)]
@@ -292,12 +303,18 @@ def main (args : List String) : IO UInt32 := do
       | m =>
         -- `variant:<flags>`: m = modifiers composed (what S asks; open finding K14c),
         -- R = the roll-back defect fixed by d10f8017 re-introduced, C = the unmangled contract
-        -- imports fixed by 1587f6f5 re-introduced; macros: e = modifiers apply to macros (K14e),
-        -- f = macros of a failed request are rolled back (K14f), g = a module's own macro wins (K14g)
+        -- imports fixed by 1587f6f5 re-introduced; macros: g = a module's own macro wins (open finding K14g),
+        -- E = modifiers not applied to provided macros (fixed by 0fe3fa8e, K14e) re-introduced, F = macros of a
+        -- failed request stay in scope (fixed by 3bef0920, K14f) re-introduced.  `model` takes E / F from what the
+        -- translator read in the source (`MacFix` defaults).
         let fl := ((m.splitOn ":").getD 1 "").toList
         runModel { rollback := !fl.contains 'R', contractImports := !fl.contains 'C',
                    compose := fl.contains 'm' }
-          { compose := fl.contains 'm', modifiers := fl.contains 'e', rollback := fl.contains 'f',
+          -- (every variant starts from the code as the translator read it: a repair that is missing in the
+          -- source is missing in all of them, so no open finding can be made to answer for it)
+          -- e / f: the repair forced ON whatever the source says (to name a regression of 0fe3fa8e / 3bef0920)
+          { compose := fl.contains 'm', modifiers := (({} : MacFix).modifiers && !fl.contains 'E') || fl.contains 'e',
+            rollback := (({} : MacFix).rollback && !fl.contains 'F') || fl.contains 'f',
             ownFirst := fl.contains 'g' } c
     for l in lines do
       IO.println l
